@@ -141,14 +141,14 @@ class Nested(_Base):
     bounds = 'depth 2; operators from {+ - * / & < = <>}; error leaves: bound value (8 codes), 1/0, SUM(1/0); other leaves symbolic integers'
 
     def cases(self, tier):
-        ops = ['+', '*', '&', '<', '='] if tier == 'quick' else ['+', '-', '*', '/', '&', '<', '=', '<>']
+        ops = ['+', '-', '*', '/', '&', '<', '=', '<>']
         kinds = ['var', 'div0', 'raise']
         out = []
         for o1 in ops:
             for o2 in ops:
                 for shape in ('L', 'R'):
                     for pat in ((1, 0, 0), (0, 1, 0), (0, 0, 1), (1, 0, 1), (0, 1, 1)):
-                        for k in kinds if tier == 'thorough' else ['var', 'raise']:
+                        for k in kinds:
                             out.append({'o1': o1, 'o2': o2, 'shape': shape, 'pat': list(pat), 'kind': k})
         for o1 in ops:
             for pat in ((1, 0), (0, 1), (1, 1)):
